@@ -68,6 +68,10 @@ def run(ctx, report):
         if ext == '+r':
             rkey = (bs, '+r')
         entry = ref.get(rkey)
+        if entry is None and len(bs) > 1 and bs[0] == 0x66 and (bs[1:], rkey[1]) in ref:
+            # a row whose opcode starts with the operand-size prefix (the 16-bit twin of a one-byte opcode: movsw, iretw):
+            # the prefix does not change the control-transfer class
+            entry = ref[(bs[1:], rkey[1])]
         if entry:
             seen_ref.add(rkey)
         cls = entry['class'] if entry else 'none'
